@@ -71,6 +71,13 @@ def compare(line, robs, mobs):
             return None
         return 'real=%s model=%s' % (robs[:60], mobs[:60])
     op = line.split()[0]
+    if op == 'fitsraw':
+        m = kvs(mobs)
+        if m.get('inv') != 'ok':
+            return 'written file violates the layout: clause %s' % m.get('inv')
+        if m.get('same') != '1':
+            return 'COV / SPARSE extensions of the written file differ from the model file'
+        return None
     if op == 'state':
         r, m = kvs(robs), kvs(mobs)
         if m.get('inv') != 'ok':
